@@ -59,21 +59,34 @@ def q6(v):
 # independent reference (no virocon code): weighted regression in log-log space
 
 def prepare(x, warr):
-    """sorted non-zero observations, their plotting positions among ALL n, normalised weights"""
+    """sorted non-zero observations, their plotting positions among ALL n, normalised weights.
+    Tied observations are ordered by their weight (the pairing of tied ranks and weights that does not
+    depend on the order of the input)."""
     x = np.asarray(x, float)
     n = len(x)
-    idx = np.argsort(x, kind="stable")
+    wfull = np.ones(n) if warr is None else np.asarray(warr, float)
+    idx = sorted(range(n), key=lambda i: (x[i], wfull[i], i))
     xs = x[idx]
     p = (np.arange(1, n + 1) - 0.5) / n
-    ws = np.ones(n) if warr is None else np.asarray(warr, float)[idx]
+    ws = wfull[idx]
     keep = xs != 0
     xs, p, ws = xs[keep], p[keep], ws[keep]
     return xs, p, ws / math.fsum(ws.tolist())
 
 
 def pstar(p, delta):
-    with np.errstate(all="ignore"):
-        return np.log10(-np.log1p(-p ** (1.0 / delta)))
+    """log10(-ln(1 - p^(1/delta))) without underflow or cancellation: with t = ln(p)/delta < 0,
+    -ln(1 - e^t) = e^t (1 + e^t/2 + ...) for very negative t; ln(1 - e^t) via expm1 / log1p otherwise"""
+    t = [math.log(pi) / delta for pi in np.asarray(p, float)]
+    out = []
+    for ti in t:
+        if ti < -40.0:                       # e^t < 4e-18: -ln(1-e^t) = e^t to double precision
+            out.append(ti / math.log(10.0))
+        elif ti > -0.6931471805599453:
+            out.append(math.log10(-math.log(-math.expm1(ti))))
+        else:
+            out.append(math.log10(-math.log1p(-math.exp(ti))))
+    return np.array(out)
 
 
 def ref_regression(xs, p, wn, delta):
@@ -103,7 +116,7 @@ def xspace_error(xs, p, wn, delta):
     except np.linalg.LinAlgError:
         return float("nan")
     with np.errstate(all="ignore"):
-        xh = 10 ** a * (-np.log1p(-p ** (1.0 / delta))) ** b
+        xh = 10 ** (a + b * pstar(p, delta))
         return float(np.sum(wn * (xs - xh) ** 2))
 
 
@@ -124,6 +137,8 @@ def sample(cls, n, rng):
         x = 1.8 * (-np.log1p(-u ** (1 / 2.2))) ** (1 / 1.1)
         k = max(1, n // 12)
         x[rng.choice(n, size=k, replace=False)] = 0.0
+    elif cls == "integers":                                # counts / rounded heights in mm: above 1290 = sqrt(2^31)/36
+        x = np.round(1500.0 * rng.weibull(1.6, n) + 200.0 * (rng.random(n) < 0.9))
     elif cls == "ties":
         x = np.round(2.5 * rng.weibull(1.4, n), 1)        # 0.1 m resolution: ties, some zeros
         if np.count_nonzero(x) < 5:
@@ -140,10 +155,7 @@ def weights_for(wk, x, rng, cls):
     if wk in ("linear", "quadratic", "cubic"):
         k = {"linear": 1, "quadratic": 2, "cubic": 3}[wk]
         return wk, x ** k
-    if cls == "ties":   # tie-consistent: a function of the value
-        arr = 0.4 + 2.0 * np.sin(3.0 * x) ** 2
-    else:
-        arr = rng.uniform(0.2, 3.0, len(x))
+    arr = rng.uniform(0.2, 3.0, len(x))      # arbitrary, also among tied observations
     return arr, arr
 
 
@@ -163,16 +175,13 @@ def bits(vals):
     return out
 
 
-FDELTAS = [0.7, 1.0, 2.5, 1.6]
-
-
 def law_inputs(c, seed):
     """sample, weights and the fixed delta of a law case (a function of the case and the seed only)"""
     rng = np.random.default_rng(zlib.crc32(f"{seed}|{c['cls']}|{c['n']}|{c['rep']}|{c['wk']}".encode()))
     x = sample(c["cls"], c["n"], rng)
     warg, warr = weights_for(c["wk"], x, rng, c["cls"])
-    # different fixed deltas on samples of the SAME length within one run
-    fdelta = FDELTAS[zlib.crc32(law_key(c).encode()) % len(FDELTAS)] if c["fixed"] else None
+    # the fixed delta rotates in the TLC case (different values on samples of the SAME length within one run)
+    fdelta = float(c["fd"]) if c["fixed"] else None
     return x, warg, warr, fdelta, rng
 
 
@@ -250,7 +259,8 @@ def law_record(vc, rid, c, seed):
     x0 = x.copy()
     wk, method = c["wk"], c["method"]
     haszeros = bool(np.any(x == 0))
-    rec = dict(id=rid, kind="law", wk=wk, fixed=bool(c["fixed"]), n=c["n"], exc="", haszeros=haszeros,
+    isint = c["cls"] == "integers"
+    rec = dict(id=rid, kind="law", wk=wk, fixed=bool(c["fixed"]), n=c["n"], exc="", haszeros=haszeros, isint=isint,
                tiecons=True, variants=[], g=0, ab=0, dq=0, dfix=0, pos=True, em=0, ep=0, hq=0, emdef=True, epdef=True,
                bits0=[], bitsH=[], bitsA=[], bitsB=[])
     with warnings.catch_warnings():
@@ -292,6 +302,9 @@ def law_record(vc, rid, c, seed):
                 wz = base.copy()
                 wz[zero] = 1000.0 if wk in ("array", "none") else 5.0
                 variant("zeroweights", x, wz, wz)
+            if isint:       # the same numbers as integers (the weights x, x^2, x^3 must not overflow)
+                for dt in (np.int32, np.int64):
+                    variant("intdtype", x.astype(dt), warg, warr)
             perm = rng.permutation(len(x))
             variant("perm", x[perm], warg[perm] if wk == "array" else warg,
                     warr[perm] if warr is not None else None)
@@ -313,7 +326,7 @@ def law_record(vc, rid, c, seed):
 
 
 def law_key(c):
-    return (f"law weights={c['wk']} delta={'fixed' if c['fixed'] else 'free'} method={c['method']} "
+    return (f"law weights={c['wk']} delta={c['fd'] if c['fixed'] else 'free'} method={c['method']} "
             f"class={c['cls']} n={c['n']} rep={c['rep']}")
 
 
@@ -324,7 +337,8 @@ def table_record(vc, rid, c, x):
     fs = sorted(c["fixed"])
     kw = {f"f_{k}": {"alpha": 1.9, "beta": 1.4, "delta": 1.7}[k] for k in fs}
     wk = c["wk"]
-    weights = {"none": None, "unknown": "quartic", "scalar": 3.5, "array": np.linspace(0.5, 2.0, len(x))}.get(wk, wk)
+    weights = {"none": None, "unknown": "quartic", "scalar": 3.5, "array": np.linspace(0.5, 2.0, len(x)),
+               "badshape": np.linspace(0.5, 2.0, len(x) - 1)}.get(wk, wk)
     rec = dict(id=rid, kind="table", method=c["method"], wk=wk, fixedset=fs, outcome="")
     with warnings.catch_warnings():
         warnings.simplefilter("ignore")
@@ -446,6 +460,9 @@ def selftest(ctx, law_recs, disc_recs, failing):
     m(fix_kw, "OrderInvariant", variants=withvar(fix_kw, "perm", dd=1))
     m(fix_kw, "LawCoverage", variants=[v for v in fix_kw["variants"] if v["name"] != "kwarray"])
     m(none_, "NoneEqualsOnes", variants=withvar(none_, "ones", ab=10**9))
+    int_ = next((r for r in good if r["isint"] and r["wk"] == "cubic" and r["fixed"]), None)
+    if int_ is not None:
+        m(int_, "IntegerSameAsFloat", variants=withvar(int_, "intdtype", ab=10**8))
     m(free_arr, "WeightScaleInvariant", variants=withvar(free_arr, "scaled", dd=5000))
     m(free_arr, "ZeroIgnored", variants=withvar(free_arr, "zeroweights", g=10**6))
     m(free_arr, "DeltaLocalMin", em=-5000)
@@ -474,7 +491,8 @@ def run(ctx):
     ctx.rule = ("TLC-enumerated: (a) every (method, weights kind, fixed set) row of the decision table; (b) every data "
                 "vector of length <= 3 (quick) / 4 (thorough) over {0..3} x every weight vector over {1,2} and the "
                 "keyword/None weights x delta fixed/free x method; (c) law cases weights kind x delta fixed/free x "
-                "method x sample class {ew, weibull, lognormal, uniform, zeros, ties} x n x replicate on seeded real-valued "
+                "method x sample class {ew, weibull, lognormal, uniform, zeros, ties, integers} x n x replicate; a fixed delta "
+                "rotates over {0.7, 1.0, 1.6, 2.5, 1e-3, 1e-2, 50, 1e4}; seeded real-valued samples on seeded real-valued "
                 "samples in random order. distinct = distinct case key; non-trivial: table rows all; small vectors "
                 "with >= 2 distinct values or a zero; law cases whose fit returned finite positive parameters")
     ctx.trusted = ["TLC 1.8 evaluating spec/EwLsqOps.tla",
@@ -484,9 +502,8 @@ def run(ctx):
                    "(observes the sorted data, positions and weights handed to the regression)"]
     ctx.assumptions = ["tolerances: 1e-8 relative on (alpha, beta) and the normalised normal equations; free delta "
                        "5e-4 + 1e-4*delta between variants; local-minimum step h = 1e-3*delta + 5e-4 (EwLsqOps.tla)",
-                       "OrderInvariant is judged with tie-consistent array weights (for tied values with different "
-                       "weights the pairing of tied ranks and weights is not determined by the property; the model "
-                       "states what is invariant then)",
+                       "OrderInvariant is judged for all array weights, tied observations with different weights "
+                       "included (tied observations take their ranks in the order of their weights)",
                        "a free delta can be shown not to be a local minimiser, never proven to be the global one"]
     # ---- M
     ctx.model_check("EwLsq", ctx.pick("MC_EwLsq_quick.cfg", "MC_EwLsq_thorough.cfg"),
@@ -505,7 +522,7 @@ def run(ctx):
         if c["d"] == [1] and k not in seen:
             seen.add(k)
             table.append(c)
-    discrete = [c for c in inputs if c["method"] in ("lsq", "wlsq") and c["wk"] not in ("unknown", "scalar")
+    discrete = [c for c in inputs if c["method"] in ("lsq", "wlsq") and c["wk"] not in ("unknown", "scalar", "badshape")
                 and set(c["fixed"]) <= {"delta"}]
     lawcases.sort(key=law_key)
     bits0 = fresh_fits(lawcases, ctx.seed)      # before the first fit in this process
